@@ -37,7 +37,7 @@ def cases(ctx):
             c = gen.cube_case(rng, ndims=int(rng.integers(1, 3)), n=gen.pick(rng, [5, 60, 300]), max_axes=1,
                               big_extent=True)
         else:
-            c = gen.cube_case(rng)
+            c = gen.cube_case(rng, n=2000 if rng.random() < 0.01 else None)
         c["rma"] = gen.pick(rng, [NaN, NaN, (0, False), (-1, False), (7, False)])
         yield c
 
